@@ -200,6 +200,10 @@ type UnitSpec struct {
 	// OnlyTags, when set, selects the ensures clauses (by tag) asserted by
 	// this unit; the others belong to another property's check.
 	OnlyTags func(tag string) bool
+	// OnlyObl selects the obligations of this unit by name (see vc.Unit).
+	OnlyObl func(name string) bool
+	// AbstractArith: see vc.Unit.
+	AbstractArith bool
 }
 
 // Unit builds the vc.Unit.
@@ -215,7 +219,7 @@ func (us *UnitSpec) Unit() *vc.Unit {
 	if us.InstanceName != "" {
 		inst = us.InstanceName
 	}
-	u := &vc.Unit{Func: fname, Instance: inst, Bounded: us.Bounded, MaxPaths: us.MaxPaths, Canary: us.Canary, Replay: us.Replay}
+	u := &vc.Unit{Func: fname, Instance: inst, Bounded: us.Bounded, MaxPaths: us.MaxPaths, Canary: us.Canary, Replay: us.Replay, OnlyObl: us.OnlyObl, AbstractArith: us.AbstractArith}
 	if u.MaxPaths == 0 {
 		u.MaxPaths = 20000
 	}
